@@ -83,7 +83,7 @@ for p in props:
           "level_claimed":{"category":"model_checking","text":l,"design_ref":f"DESIGN.md Part 3, {i}"},
           "level_note":n,"technique":t})
 m={"version":1,
- "setup_cmd":"cd /verif/mc && CARGO_NET_OFFLINE=true cargo build --release --offline",
+ "setup_cmd":"cd /verif/mc && CARGO_NET_OFFLINE=true CARGO_TARGET_DIR=/verif/mc/target cargo build --release --offline",
  "hooks":{"guard":"jsonb_verif","enable":"no hooks are needed: every property is observable through the public API; the harness links /repo as a cargo path dependency and is rebuilt by every check command","baseline_off_cmd":"cd /repo && cargo test --workspace --no-fail-fast --offline","source_commits":[],"add_only":True},
  "engines":[{"name":"mc","path":"/verif/mc","serves_properties":sorted(CLAIMED),"kind_free_text":"Rust harness (cargo workspace): exhaustive SWEEP / BFS / FAULT / LANG / ISOLATE engines that call the real jsonb functions and compare every execution with the independent reference model crate `refmodel`"}],
  "checks":checks,
